@@ -5,6 +5,11 @@ import PermutaModel.Lemmas.C14CacheStep
 import PermutaModel.Lemmas.C14Occ
 import PermutaModel.Lemmas.C14Gen
 import PermutaModel.Lemmas.C14C15
+import PermutaModel.Lemmas.C14CompTable
+import PermutaModel.Lemmas.C14C15Gen
+import PermutaModel.Props.C15
+import PermutaModel.Lemmas.C14SymRun
+import PermutaModel.Lemmas.C16Special
 
 /-!
 # C14 — pin words decode to their pin permutations and reflect pattern containment
@@ -14,10 +19,15 @@ definitions the driver executes (`Model.C14.*`, mirroring `permuta/permutils/pin
 `pinword_util.py`); `Spec.C14.inLang` is the language of pin words by local conditions,
 `C14L.GeoRun` the geometric reading of the property's first sentence.
 
-NOT proved here (see `PARTIAL` in `harness/c14.py`): the containment iff
-`Contains (perm w) σ ↔ ∃ u ∈ words σ, pinword_contains w u` (Bassino–Bouvel–Pierrot–Rossin,
-Thm 3.13).  It is evaluated as a *bounded test* by the harness ops `pw_pcont` / `pw_pcontnt`
-(it passes in both directions since the repository fix ff59958 of finding `C14-touch`).
+The containment iff `Contains (perm w) π ↔ ∃ u ∈ words π, pinword_contains w u`
+(Bassino–Bouvel–Pierrot–Rossin, Thm 3.13) is **proved** in section A6 (`pinword_contains_sound`,
+`pinword_contains_complete`, `pinword_contains_iff`, `pinword_contains_iff_table`,
+`containsTable_spec`) for every pin word `w` (several numerals allowed) and every permutation `π`;
+the harness ops `pw_pcont` / `pw_pcontnt` evaluate the same statement on the real code.  Section A6′
+(`helpers_agree_C15_decode`, `basisAccepts_iff_contains`) carries it over to the basis automaton of
+C15 (`accepts_iff_contains`), section A7 (`hasFinitePinperms_iff`, `hasFinitePinperms_class_only`) to the
+pin half of C16's verdict; section A8 (`decode_act`, `hasFinitePinperms_act`) shows that pin permutations
+and that verdict are invariant under the eight symmetries.
 -/
 open Model.C14 Model.C14.Letter Spec.C14 Proto C14L
 
@@ -249,7 +259,7 @@ theorem quadrant_geometry (w : Word) (hw : inLang w = true) (i : Nat) (hi : i < 
 
 example : sgn false (-1/2 : Rat) := by simp only [sgn]; decide +kernel
 
-/-! ## A5 — containment in words: what is proved (the iff itself is a bounded test, see header) -/
+/-! ## A5 — containment in words: the search itself (Theorem 3.13 is section A6) -/
 
 /-- the empty word is found in every word (`factor_pinword "" = []`, the recursion yields `()`) -/
 theorem contains_nil (w : Word) : contains w [] = .ok true ∧ containsNT w [] = .ok true := by
@@ -325,8 +335,8 @@ example : containsPreFix [q2, U] [q2, q2] = .ok true ∧ contains [q2, U] [q2, q
 
 Two pieces of code implement Bassino–Bouvel–Pierrot–Rossin Thm 3.13: the search of
 `pinword_contains(w, u)` (this property) and `make_nfa_for_pinword(u)` run on words of the language
-`M` (property C15, model `Model.C15.nfaForPinword` / `nfaAccepts`).  Neither is proved equivalent to
-pattern containment, but they are proved equivalent to **each other** through the translation
+`M` (property C15, model `Model.C15.nfaForPinword` / `nfaAccepts`).  The search is proved equivalent to
+pattern containment in section A6; here the two are proved equivalent to **each other** through the translation
 `sp_to_m` / `m_to_sp` between strict pin words and `M`-words.  Strings are `List Char` (what C15's
 model uses); `Letter.ofChar` reads them into C14's alphabet, so `u` ranges over *all* strings. -/
 
@@ -453,6 +463,429 @@ example :
   · intro h
     exact absurd ((nfa_vs_occurrences_general "2U".toList "22".toList (by decide) (by decide)).2.mpr h)
       (by decide +kernel)
+
+/-! ## A6 — Theorem 3.13: `pinword_contains` decides pattern containment -/
+
+/-- **pinword_contains_sound** (Bassino–Bouvel–Pierrot–Rossin Thm 3.13, direction ⇐): if
+    `pinword_contains(w, u)` returns `True` for two words that decode (`w ↦ σ`, `u ↦ π`; by
+    `decode_ok_iff` these are exactly the words of the language – several numerals allowed on both
+    sides), then `σ` contains the pattern `π`. -/
+theorem pinword_contains_sound (w u : Word) (σ π : NSeq) (hσ : pinwordToPerm w = .ok σ)
+    (hπ : pinwordToPerm u = .ok π) (h : contains w u = .ok true) : Contains σ π := by
+  have hw := (decode_ok_iff w).mp ⟨σ, hσ⟩
+  have hu := (decode_ok_iff u).mp ⟨π, hπ⟩
+  obtain ⟨σ', π', h1, h2, h3⟩ := C14S.contains_sound w u hw hu h
+  rw [hσ] at h1; rw [hπ] at h2
+  cases h1; cases h2
+  exact h3
+
+/-- **pinword_contains_complete** (Thm 3.13, direction ⇒): every permutation `π` contained in the
+    permutation `σ` of a pin word `w` has a pin word `u` – one of the words that
+    `pinwords_of_length(len π)` enumerates and that decodes to `π` – with `pinword_contains(w, u) = True`. -/
+theorem pinword_contains_complete (w : Word) (σ π : NSeq) (hσ : pinwordToPerm w = .ok σ)
+    (hπ : IsPerm π) (hc : Contains σ π) :
+    ∃ u ∈ pinwordsOfLength π.length, pinwordToPerm u = .ok π ∧ contains w u = .ok true := by
+  have hw := (decode_ok_iff w).mp ⟨σ, hσ⟩
+  obtain ⟨u, h1, h2, h3, h4⟩ := C14S.contains_complete w hw σ π hσ hπ hc
+  exact ⟨u, (generator_spec _ u).mpr ⟨h1, h2⟩, h3, h4⟩
+
+/-- **pinword_contains_iff** (Thm 3.13 as the code computes it): for every pin word `w` (any word
+    that decodes, `w ↦ σ`) and every permutation `π`:
+    `π ≤ σ` **iff** some pin word `u` of `π` has `pinword_contains(w, u) = True`. -/
+theorem pinword_contains_iff (w : Word) (σ π : NSeq) (hσ : pinwordToPerm w = .ok σ) (hπ : IsPerm π) :
+    Contains σ π ↔
+      ∃ u ∈ pinwordsOfLength π.length, pinwordToPerm u = .ok π ∧ contains w u = .ok true :=
+  ⟨pinword_contains_complete w σ π hσ hπ,
+   fun ⟨u, _, h2, h3⟩ => pinword_contains_sound w u σ π hσ h2 h3⟩
+
+/-- … read through the table the code uses (`pinwords_for_basis` looks the pin words of `π` up in
+    `perm_to_pinword_mapping(len π)`): `π ≤ σ` iff one of the words listed under `π` is found in `w` -/
+theorem pinword_contains_iff_table (w : Word) (σ π : NSeq) (hσ : pinwordToPerm w = .ok σ)
+    (hπ : IsPerm π) :
+    ∃ t, permToPinwordMapping π.length = .ok t ∧
+      (Contains σ π ↔ ∃ u, Rel t π u ∧ contains w u = .ok true) := by
+  obtain ⟨t, h1, h2, _⟩ := permToPinwordMapping_spec π.length
+  refine ⟨t, h1, ?_⟩
+  rw [pinword_contains_iff w σ π hσ hπ]
+  constructor
+  · rintro ⟨u, hu, h3, h4⟩; exact ⟨u, (h2 π u).mpr ⟨hu, h3⟩, h4⟩
+  · rintro ⟨u, hu, h4⟩; obtain ⟨h5, h6⟩ := (h2 π u).mp hu; exact ⟨u, h5, h6, h4⟩
+
+/-- non-vacuity of the soundness direction: `1` is found in `2UR` (on the letter `R`, whose pin lies in
+    quadrant 1), hence `perm(2UR)` contains `perm(1)` -/
+example : ∃ σ π, pinwordToPerm [q2, U, R] = .ok σ ∧ pinwordToPerm [q1] = .ok π ∧ Contains σ π := by
+  obtain ⟨σ, hσ, _⟩ := decode_total [q2, U, R] (by decide)
+  obtain ⟨π, hπ, _⟩ := decode_total [q1] (by decide)
+  exact ⟨σ, π, hσ, hπ, pinword_contains_sound _ _ σ π hσ hπ (by decide +kernel)⟩
+
+/-- non-vacuity of the completeness direction: the pattern `0` of `perm(2U)` is found through one
+    of the four one-letter pin words -/
+example : ∃ u ∈ pinwordsOfLength 1, pinwordToPerm u = .ok [0] ∧ contains [q2, U] u = .ok true := by
+  obtain ⟨σ, hσ, _, hl⟩ := decode_total [q2, U] (by decide)
+  refine pinword_contains_complete [q2, U] σ [0] hσ (by decide) ⟨[0], rfl, by simp [StrictInc], ?_, ?_⟩
+  · intro i hi; simp at hi; subst hi; rw [hl]; decide
+  · intro a b ha hb
+    simp only [List.length_cons, List.length_nil, Nat.zero_add, Nat.lt_one_iff] at ha hb
+    subst ha hb; simp
+
+/-- … and a pattern that is *not* contained is not found: `perm(2U)` has length 2 and two different
+    pin words of length 2, `2U` and `22`, are found resp. not found; by the theorem `perm(22)` is
+    not a pattern of `perm(2U)` (this is what finding `C14-touch` violated before the fix) -/
+example : ∃ σ π, pinwordToPerm [q2, U] = .ok σ ∧ pinwordToPerm [q2, q2] = .ok π
+    ∧ contains [q2, U] [q2, q2] = .ok false := by
+  obtain ⟨σ, hσ, _⟩ := decode_total [q2, U] (by decide)
+  obtain ⟨π, hπ, _⟩ := decode_total [q2, q2] (by decide)
+  exact ⟨σ, π, hσ, hπ, by decide +kernel⟩
+
+/-- **containsTable_spec**: the function behind the harness ops `pw_pcont` / `pw_pcontnt` – for a
+    pin word `w ↦ σ` and a length `k`, one Boolean per permutation `π` of length `k` (in the order
+    of `lexPerms k`): "some word listed under `π` in `pinword_to_perm_mapping(k)` is found in `w`"
+    by `pinword_contains` (`filt = false`) or by the non-touching filter over
+    `pinword_occurrences` (`filt = true`) – never fails and answers `Contains σ π` on every entry;
+    `lexPerms k` lists exactly the permutations of length `k`. -/
+theorem containsTable_spec (w : Word) (σ : NSeq) (hσ : pinwordToPerm w = .ok σ) (k : Nat) (filt : Bool) :
+    ∃ bs, containsTable w k filt = .ok bs
+      ∧ List.Forall₂ (fun π b => (b = true ↔ Contains σ π)) (lexPerms k) bs
+      ∧ ∀ π, π ∈ lexPerms k ↔ IsPerm π ∧ π.length = k := by
+  have hw := (decode_ok_iff w).mp ⟨σ, hσ⟩
+  obtain ⟨tbl, htbl, _, hmem⟩ := pinwordToPermMapping_spec k
+  let f : Word × NSeq → Except Err Bool := fun kv => if filt = true then containsNT w kv.1 else contains w kv.1
+  have hf : ∀ kv ∈ tbl, f kv = contains w kv.1 ∧ ∃ b, contains w kv.1 = .ok b := by
+    intro kv hkv
+    have hu := ((generator_spec k kv.1).mp ((hmem kv.1 kv.2).mp hkv).1).1
+    refine ⟨?_, _, (occurrences_total w kv.1 hw hu).2⟩
+    simp only [f]
+    split
+    · exact (contains_eq_containsNT_lang w kv.1 hw).symm
+    · rfl
+  let H : NSeq → Bool := fun π => false || (tbl.filter fun kv => kv.2 = π).any fun kv => f kv == .ok true
+  have hG : ∀ π ∈ lexPerms k,
+      (tbl.filter fun kv => kv.2 = π).foldlM (fun acc kv =>
+        if acc = true then Except.ok true
+        else if filt = true then containsNT w kv.1 else contains w kv.1) false = .ok (H π) := by
+    intro π _
+    apply C14S.foldlM_any f
+    intro kv hkv
+    obtain ⟨h1, b, h2⟩ := hf kv (List.mem_filter.mp hkv).1
+    exact ⟨b, h1 ▸ h2⟩
+  refine ⟨(lexPerms k).map H, ?_, ?_, fun π =>
+    ⟨C14S.lexPerms_isPerm k π, fun h => C14S.lexPerms_complete k π h.1 h.2⟩⟩
+  · simp only [containsTable, htbl, containsTableWith]
+    exact C14S.mapM_ok _ H _ hG
+  · rw [List.forall₂_map_right_iff, List.forall₂_same]
+    intro π hπ
+    obtain ⟨hperm, hlen⟩ := C14S.lexPerms_isPerm k π hπ
+    rw [pinword_contains_iff w σ π hσ hperm, hlen]
+    simp only [H, Bool.false_or, List.any_eq_true, List.mem_filter, decide_eq_true_eq, beq_iff_eq]
+    constructor
+    · rintro ⟨kv, ⟨hkv, rfl⟩, h⟩
+      obtain ⟨h1, h2⟩ := (hmem kv.1 kv.2).mp hkv
+      exact ⟨kv.1, h1, h2, (hf kv hkv).1 ▸ h⟩
+    · rintro ⟨u, hu, h1, h2⟩
+      have hkv : (u, π) ∈ tbl := (hmem u π).mpr ⟨hu, h1⟩
+      exact ⟨(u, π), ⟨hkv, rfl⟩, ((hf _ hkv).1).symm ▸ h2⟩
+
+example : (lexPerms 2) = [[0, 1], [1, 0]] := by decide
+
+
+/-! ## A6′ — … and so does the basis automaton of C15 (`accepts_iff_contains`) -/
+
+/-- C15's model also carries its own copies of `pinword_to_perm` and `pinwords_of_length`
+    (on strings); they agree with this model's: `perm_to_pinword_mapping(len p)[p]` as C15 computes
+    it (`Model.C15.permToPinwords`) lists exactly the enumerated words that decode to `p` here -/
+theorem helpers_agree_C15_decode (p : NSeq) (u : List Char) :
+    u ∈ Model.C15.permToPinwords p ↔
+      u.map ofChar ∈ pinwordsOfLength p.length ∧ pinwordToPerm (u.map ofChar) = .ok p := by
+  unfold Model.C15.permToPinwords
+  rw [List.mem_filter, C14C15.mem_pw15]
+  constructor
+  · rintro ⟨h1, h2⟩
+    refine ⟨h1, ?_⟩
+    obtain ⟨π, hπ, _⟩ := decode_total _ ((generator_spec _ _).mp h1).1
+    have := C14C15.decode_bridge u π hπ
+    simp only [Model.C15.decodesTo, this, beq_iff_eq] at h2
+    exact h2 ▸ hπ
+  · rintro ⟨h1, h2⟩
+    refine ⟨h1, ?_⟩
+    simp [Model.C15.decodesTo, C14C15.decode_bridge u p h2]
+
+example : Model.C15.permToPinwords [0] = [['1'], ['2'], ['3'], ['4']] := by decide +kernel
+
+theorem ofChar_toChar (c : Letter) (h : c.isQuad = true ∨ c.isDir = true) : ofChar (toChar c) = c := by
+  cases c <;> simp_all [isQuad, isDir] <;> decide
+
+theorem toL_map_toChar (u : Word) (h : ∀ x ∈ u, x.isQuad = true ∨ x.isDir = true) :
+    (u.map toChar).map ofChar = u := by
+  rw [List.map_map]
+  conv_rhs => rw [← List.map_id u]
+  apply List.map_congr_left
+  intro x hx
+  exact ofChar_toChar x (h x hx)
+
+/-- **basisAccepts_iff_contains** (C15's `accepts_iff_contains`): for every basis `B` of
+    permutations and every word `m` of `M` (direction letters, no two consecutive ones on one
+    axis) with at least two letters: `m_to_sp(m)` is a strict pin word `w`, it decodes to a
+    permutation `σ`, and the basis automaton semantics of C15 (`Model.C15.basisAccepts`: the NFA of
+    `make_nfa_for_pinword(u)` accepts `m` for some pin word `u` of some `p ∈ B`; by
+    `C15.pipeline_language` this is what the automaton of `make_dfa_for_basis(B)` accepts on words
+    over `DIRS`) accepts `m` **iff `σ` contains some basis element**. -/
+theorem basisAccepts_iff_contains (B : List NSeq) (hB : ∀ p ∈ B, IsPerm p) (m : List Char)
+    (hm : Spec.C15.InM m) (hlen : 2 ≤ m.length) :
+    ∃ w σ, mToSp (m.map ofChar) = .ok w ∧ isStrict w = true ∧ pinwordToPerm w = .ok σ
+      ∧ (Model.C15.basisAccepts B m = true ↔ ∃ p ∈ B, Contains σ p) := by
+  obtain ⟨w, hw1, hw2, hw3, _⟩ := nfa_vs_occurrences_M m [] hm hlen (by simp)
+  obtain ⟨σ, hσ, _⟩ := decode_total w hw3
+  have key : ∀ u : List Char, inLang (u.map ofChar) = true →
+      (Model.C15.nfaAccepts (Model.C15.nfaForPinword u) m = true ↔
+        contains w (u.map ofChar) = .ok true) := by
+    intro u hu
+    have hhead : ∀ c, u.head? = some c → c ∉ Model.C15.DIRS := by
+      intro c hc hd
+      have hq := C14S.inLang_head hu (ofChar c) (by cases u <;> simp_all)
+      have : (ofChar c).isDir = true := by rw [C14C15.isDir_ofChar]; simpa using hd
+      cases h : ofChar c <;> simp_all [isQuad, isDir]
+    obtain ⟨w', h1, _, _, h4⟩ := nfa_vs_occurrences_M m u hm hlen hhead
+    rw [hw1] at h1; cases h1
+    exact h4
+  refine ⟨w, σ, hw1, hw2, hσ, ?_⟩
+  unfold Model.C15.basisAccepts Model.C15.wordsAccept Model.C15.pinwordsForBasis Model.C15.pinwordAccepts
+  rw [List.any_eq_true]
+  constructor
+  · rintro ⟨u, hu, hacc⟩
+    obtain ⟨p, hp, hup⟩ := List.mem_flatMap.mp hu
+    obtain ⟨h1, h2⟩ := (helpers_agree_C15_decode p u).mp hup
+    have hlang := ((generator_spec _ _).mp h1).1
+    exact ⟨p, hp, pinword_contains_sound w _ σ p hσ h2 ((key u hlang).mp hacc)⟩
+  · rintro ⟨p, hp, hc⟩
+    obtain ⟨u', hu1, hu2, hu3⟩ := pinword_contains_complete w σ p hσ (hB p hp) hc
+    have hlang := ((generator_spec _ _).mp hu1).1
+    have hback := toL_map_toChar u' (inLang_alpha u' hlang)
+    refine ⟨u'.map toChar, List.mem_flatMap.mpr ⟨p, hp, ?_⟩, ?_⟩
+    · rw [helpers_agree_C15_decode, hback]; exact ⟨hu1, hu2⟩
+    · rw [key _ (by rw [hback]; exact hlang), hback]; exact hu3
+
+/-- non-vacuity: `UR ∈ M` is accepted by the automaton semantics of the basis `{0}`, so the permutation
+    of `m_to_sp(UR) = 1` contains `0`; it has one point and cannot contain `10`, so – by the theorem,
+    without running the automaton – the basis `{10}` rejects `UR` -/
+example : (∃ w σ, mToSp ("UR".toList.map ofChar) = .ok w ∧ pinwordToPerm w = .ok σ
+      ∧ ∃ p ∈ [[0]], Contains σ p)
+    ∧ Model.C15.basisAccepts [[1, 0]] "UR".toList = false := by
+  have hm : Spec.C15.InM "UR".toList := by
+    refine ⟨by unfold Spec.C15.AStar; decide, ?_⟩
+    intro x a b v h
+    have : x.length < 1 := by
+      have := congrArg List.length h; simp at this; omega
+    match x, this with
+    | [], _ => cases h; decide
+  constructor
+  · obtain ⟨w, σ, h1, _, h3, h4⟩ := basisAccepts_iff_contains [[0]] (by decide) "UR".toList hm (by decide)
+    exact ⟨w, σ, h1, h3, h4.mp (by decide +kernel)⟩
+  · obtain ⟨w, σ, h1, _, h3, h4⟩ := basisAccepts_iff_contains [[1, 0]] (by decide) "UR".toList hm (by decide)
+    have hw : w = [q1] := by
+      have : mToSp ("UR".toList.map ofChar) = .ok [q1] := by decide
+      rw [this] at h1; cases h1; rfl
+    subst hw
+    obtain ⟨σ', hσ', _, hl⟩ := decode_total [q1] (by decide)
+    rw [h3] at hσ'; cases hσ'
+    cases hb : Model.C15.basisAccepts [[1, 0]] "UR".toList with
+    | false => rfl
+    | true =>
+      obtain ⟨p, hp, c, hc⟩ := h4.mp hb
+      simp only [List.mem_singleton] at hp
+      subst hp
+      have hlen := hc.len
+      have hrng := hc.rng
+      have hinc := hc.inc
+      match c, hlen with
+      | [a, b], _ =>
+        simp only [StrictInc, List.pairwise_cons, List.mem_singleton, forall_eq] at hinc
+        have := hrng b (by simp)
+        simp only [hl, List.length_cons, List.length_nil] at this
+        omega
+
+
+/-! ## A7 — what `has_finite_pinperms` decides (C15 / C16) -/
+
+theorem InM_of_inM (m : Word) (hm : inM m = true) : Spec.C15.InM (m.map toChar) := by
+  have hdir : ∀ x ∈ m, x.isDir = true := by
+    cases m with
+    | nil => intro x hx; simp at hx
+    | cons c rest =>
+      simp only [inM, Bool.and_eq_true, List.all_eq_true] at hm
+      intro x hx
+      rcases List.mem_cons.mp hx with rfl | hx
+      · exact hm.1.1
+      · exact hm.2 x hx
+  constructor
+  · intro c hc
+    obtain ⟨x, hx, rfl⟩ := List.mem_map.mp hc
+    have := hdir x hx
+    cases x <;> simp_all [isDir, toChar] <;> decide
+  · intro u a b v h
+    obtain ⟨u0, t, rfl, _, ht⟩ := List.map_eq_append_iff.mp h
+    match t, ht with
+    | x :: y :: v0, ht =>
+      simp only [List.map_cons, List.cons.injEq] at ht
+      obtain ⟨rfl, rfl, _⟩ := ht
+      obtain ⟨hx, hy, hxy⟩ := C14C15.inM_adj _ hm u0.length x y (by simp) (by simp)
+      cases x <;> simp only [isDir] at hx <;> try exact absurd hx (by decide)
+      all_goals
+        cases y <;> simp only [isDir] at hy <;> try exact absurd hy (by decide)
+      all_goals first
+        | exact absurd hxy (by decide)
+        | decide
+
+
+/-- every non-empty strict pin word of the language is `m_to_sp` of a word of `M` (one letter longer) -/
+theorem strict_from_M (w : Word) (hs : isStrict w = true) (hw : inLang w = true) (hne : w ≠ []) :
+    ∃ m : List Char, Spec.C15.InM m ∧ m.length = w.length + 1 ∧ mToSp (m.map ofChar) = .ok w := by
+  match w, hne with
+  | q :: ds, _ =>
+    simp only [isStrict, Bool.and_eq_true, List.all_eq_true] at hs
+    simp only [inLang, Bool.and_eq_true] at hw
+    obtain ⟨ms, _, hne', hall⟩ := C14C15.spToM_strict q ds hs.1 hs.2 hw.2
+    obtain ⟨m', hm'⟩ := List.exists_mem_of_ne_nil _ hne'
+    obtain ⟨a, b, rfl, hM, hlk⟩ := hall m' hm'
+    have hback : ((a :: b :: ds).map toChar).map ofChar = a :: b :: ds := by
+      apply toL_map_toChar
+      intro x hx
+      have := C14C15.ctx_dirs ⟨hs.1, hs.2, hw.2, hM, hlk⟩ x hx
+      exact Or.inr this
+    refine ⟨(a :: b :: ds).map toChar, InM_of_inM _ hM, by simp, ?_⟩
+    rw [hback, mToSp_pair, hlk]
+
+/-- **hasFinitePinperms_iff** – what the pin half of `has_finite_simples` decides: for a basis `B`
+    of permutations, `has_finite_pinperms(B)` (model of C15: basis automaton, difference with the
+    automaton of `M`, finiteness test) returns `True` **iff the permutations of strict pin words that
+    avoid `B` have bounded length**, i.e. iff `Av(B)` contains only finitely many permutations encoded by
+    strict pin words. -/
+theorem hasFinitePinperms_iff (B : List NSeq) (hB : ∀ p ∈ B, IsPerm p) :
+    Model.C15.hasFinitePinperms B = true ↔
+      ∃ N, ∀ w σ, isStrict w = true → pinwordToPerm w = .ok σ → (∀ p ∈ B, ¬ Contains σ p) →
+        σ.length ≤ N := by
+  rw [C15.has_finite_pinperms_iff_bounded]
+  constructor
+  · rintro ⟨N, hN⟩
+    refine ⟨N, fun w σ hs hσ hav => ?_⟩
+    have hw := (decode_ok_iff w).mp ⟨σ, hσ⟩
+    obtain ⟨σ', hσ', _, hl⟩ := decode_total w hw
+    rw [hσ] at hσ'; cases hσ'
+    by_cases hne : w = []
+    · subst hne; rw [hl]; simp
+    · obtain ⟨m, hm, hml, hmsp⟩ := strict_from_M w hs hw hne
+      have hpos : 0 < w.length := List.length_pos_iff.mpr hne
+      obtain ⟨w', σ', h1, _, h3, h4⟩ := basisAccepts_iff_contains B hB m hm (by omega)
+      rw [hmsp] at h1; cases h1
+      rw [hσ] at h3; cases h3
+      have hb : Model.C15.basisAccepts B m = false := by
+        cases hb : Model.C15.basisAccepts B m with
+        | false => rfl
+        | true => obtain ⟨p, hp, hc⟩ := h4.mp hb; exact absurd hc (hav p hp)
+      have := hN m hm hb
+      omega
+  · rintro ⟨N, hN⟩
+    refine ⟨N + 1, fun m hm hb => ?_⟩
+    by_cases hlen : 2 ≤ m.length
+    · obtain ⟨w, σ, h1, h2, h3, h4⟩ := basisAccepts_iff_contains B hB m hm hlen
+      have hav : ∀ p ∈ B, ¬ Contains σ p := fun p hp hc => by
+        rw [h4.mpr ⟨p, hp, hc⟩] at hb; cases hb
+      have hle := hN w σ h2 h3 hav
+      obtain ⟨σ', hσ', _, hl⟩ := decode_total w ((decode_ok_iff w).mp ⟨σ, h3⟩)
+      rw [h3] at hσ'; cases hσ'
+      have hwl : w.length + 1 = m.length := by
+        match m, hlen with
+        | a :: b :: rest, _ =>
+          simp only [List.map_cons, mToSp_pair] at h1
+          split at h1
+          · cases h1
+          · cases h1; simp
+      omega
+    · omega
+
+/-- **the pin half depends only on the class**: two bases of permutations with the same avoiders get
+    the same answer from `has_finite_pinperms` (this is the hypothesis `hpin` of
+    `C16.hasFiniteSimples_class_only` for `dfa = None`) -/
+theorem hasFinitePinperms_class_only (B B' : List NSeq) (hB : ∀ x ∈ B, IsPerm x) (hB' : ∀ x ∈ B', IsPerm x)
+    (h : ∀ σ, IsPerm σ → ((∀ x ∈ B, ¬ Contains σ x) ↔ (∀ x ∈ B', ¬ Contains σ x))) :
+    Model.C15.hasFinitePinperms B = Model.C15.hasFinitePinperms B' := by
+  rw [Bool.eq_iff_iff, hasFinitePinperms_iff B hB, hasFinitePinperms_iff B' hB']
+  have key : ∀ w σ, pinwordToPerm w = .ok σ → IsPerm σ := by
+    intro w σ hσ
+    obtain ⟨σ', hσ', hp, _⟩ := decode_total w ((decode_ok_iff w).mp ⟨σ, hσ⟩)
+    rw [hσ] at hσ'; cases hσ'; exact hp
+  constructor
+  · rintro ⟨N, hN⟩
+    exact ⟨N, fun w σ hs hσ hav => hN w σ hs hσ ((h σ (key w σ hσ)).mpr hav)⟩
+  · rintro ⟨N, hN⟩
+    exact ⟨N, fun w σ hs hσ hav => hN w σ hs hσ ((h σ (key w σ hσ)).mp hav)⟩
+
+/-- non-vacuity, both verdicts (the model's verdicts are evaluated, the conclusions follow by the
+    theorem): avoiding `0` leaves only the empty pin permutation; the empty basis leaves all of them -/
+example : (∃ N, ∀ w σ, isStrict w = true → pinwordToPerm w = .ok σ → (∀ p ∈ [[0]], ¬ Contains σ p) →
+      σ.length ≤ N)
+    ∧ ¬ (∃ N, ∀ w σ, isStrict w = true → pinwordToPerm w = .ok σ → (∀ p ∈ ([] : List NSeq), ¬ Contains σ p) →
+      σ.length ≤ N) :=
+  ⟨(hasFinitePinperms_iff _ (by decide)).mp (by decide +kernel),
+   fun h => absurd ((hasFinitePinperms_iff _ (by decide)).mpr h) (by decide +kernel)⟩
+
+example : Model.C15.hasFinitePinperms [[0, 1]] = Model.C15.hasFinitePinperms [[0, 1], [0, 1]] := by
+  refine hasFinitePinperms_class_only _ _ (by decide) (by decide) ?_
+  intro σ _
+  simp
+
+
+/-! ## A8 — the eight symmetries -/
+
+/-- **pin permutations are closed under the eight symmetries**: for a word `w` that decodes to `σ`
+    and a symmetry `g` (reverse / complement / inverse and their compositions, `D8.act`), the word
+    `g·w` obtained by renaming the letters (`C14S.actWord`: e.g. reverse swaps `L↔R`, `1↔2`, `3↔4`)
+    decodes to `g·σ`; it has the same length and is strict when `w` is. -/
+theorem decode_act (g : D8) (w : Word) (σ : NSeq) (hσ : pinwordToPerm w = .ok σ) :
+    pinwordToPerm (C14S.actWord g w) = .ok (g.act σ)
+      ∧ (isStrict w = true → isStrict (C14S.actWord g w) = true)
+      ∧ (C14S.actWord g w).length = w.length := C14S.decode_act g w σ hσ
+
+example : C14S.actWord ⟨true, false, false⟩ [q3, D, L, q2, U, R] = [q4, D, R, q1, U, L] := by decide
+
+/-- **hasFinitePinperms_act** – the pin half of `has_finite_simples` is invariant under the eight
+    symmetries (the hypothesis `hpin` of `C16.hasFiniteSimples_act` for `dfa = None`) -/
+theorem hasFinitePinperms_act (B : List NSeq) (hB : ∀ x ∈ B, IsPerm x) (g : D8) :
+    Model.C15.hasFinitePinperms (B.map g.act) = Model.C15.hasFinitePinperms B := by
+  have bounded_of_act : ∀ (B : List NSeq), (∀ x ∈ B, IsPerm x) → ∀ (g : D8) (N : Nat),
+      (∀ w σ, isStrict w = true → pinwordToPerm w = .ok σ → (∀ p ∈ B.map g.act, ¬ Contains σ p) →
+        σ.length ≤ N) →
+      ∀ w σ, isStrict w = true → pinwordToPerm w = .ok σ → (∀ p ∈ B, ¬ Contains σ p) → σ.length ≤ N := by
+    intro B hB g N h w σ hs hσ hav
+    obtain ⟨h1, h2, h3⟩ := decode_act g w σ hσ
+    obtain ⟨σ0, hσ0, hσp, hl⟩ := decode_total w ((decode_ok_iff w).mp ⟨σ, hσ⟩)
+    rw [hσ] at hσ0; cases hσ0
+    obtain ⟨σ1, hσ1, _, hl1⟩ := decode_total _ ((decode_ok_iff _).mp ⟨_, h1⟩)
+    rw [h1] at hσ1; cases hσ1
+    have := h _ _ (h2 hs) h1 (by
+      intro p hp hc
+      obtain ⟨p0, hp0, rfl⟩ := List.mem_map.mp hp
+      exact hav p0 hp0 ((C16L.contains_act_iff (hB p0 hp0) hσp g).mp hc))
+    omega
+  have hB' : ∀ x ∈ B.map g.act, IsPerm x := by
+    intro x hx
+    obtain ⟨p, hp, rfl⟩ := List.mem_map.mp hx
+    exact C04L.isPerm_act (hB p hp) g
+  have hback : (B.map g.act).map g.inv.act = B := by
+    rw [List.map_map]
+    conv_rhs => rw [← List.map_id B]
+    apply List.map_congr_left
+    intro p hp
+    simp only [Function.comp, id]
+    rw [C04L.act_mul (hB p hp), C04L.inv_mul, C04L.act_one]
+  rw [Bool.eq_iff_iff, hasFinitePinperms_iff _ hB', hasFinitePinperms_iff _ hB]
+  constructor
+  · rintro ⟨N, hN⟩; exact ⟨N, bounded_of_act B hB g N hN⟩
+  · rintro ⟨N, hN⟩
+    exact ⟨N, bounded_of_act (B.map g.act) hB' g.inv N (by rw [hback]; exact hN)⟩
+
+example : Model.C15.hasFinitePinperms ([[0, 1, 2], [1, 0]].map (⟨true, false, true⟩ : D8).act)
+    = Model.C15.hasFinitePinperms [[0, 1, 2], [1, 0]] := hasFinitePinperms_act _ (by decide) _
+
 
 /-! ## tie to the source: the tables the model uses are the ones in the repository -/
 
